@@ -153,11 +153,18 @@ def _idft2_params(ctx):
     ar, ac = ctx.fresh_real('alpha_r'), ctx.fresh_real('alpha_c')
     if ctx.branch(ctx.fresh_bool('shape_given')):
         shape = shape2(ctx, 'f')
+        M, N = shape
     else:
         shape = None
+        M, N = m, n
+    unitary = ctx.branch(ctx.fresh_bool('unitary'))
+    out = None
+    if ctx.branch(ctx.fresh_bool('out_given')):
+        # the caller's buffer must end up holding the returned (normalised) values, whatever it held before
+        out = array(ctx, 'out', (M, N), 'complex')
     return {'F': F, 'alpha': (ar, ac), 'shape': shape,
             'shift': (ctx.fresh_real('shift_r'), ctx.fresh_real('shift_c')),
-            'unitary': ctx.branch(ctx.fresh_bool('unitary')), 'out': None}
+            'unitary': unitary, 'out': out}
 
 
 c.params = _idft2_params
